@@ -17,6 +17,7 @@ from sx import env as E
 from sx.engine import Ctx, SBool, SInt, SXControl, SymVal, lift, truthy, vapp, veq
 
 RES_NAMES = {"t": "thread", "m": "main-thread", "a": "async-thread"}
+REAL: Dict[str, Any] = {"schedule": None, "world": None}  # set by replay_real(): run on the real pool / loop following this schedule
 
 
 @dataclasses.dataclass(frozen=True)
@@ -162,6 +163,10 @@ class Monitor:
     def submitted(self, fut: E.FakeFuture) -> None:
         pass
 
+    def pool_submission(self, label: str, n: int) -> None:
+        """Real-pool replay: a callable is handed to the pool while n-1 earlier ones are unfinished."""
+        self.chk("C04", z3.IntVal(n) <= self.s["mc"].z, "%d pooled nodes in flight exceed max_concurrency" % n, {"submitted": label})
+
     def observed_fut(self, fut: E.FakeFuture) -> None:
         if fut.label is not None:
             self.obs.add(fut.label)
@@ -194,7 +199,7 @@ class Monitor:
             kinds_in = sorted({f.kind for f in S})
             # second half of the async-then-thread pair of waits: the preceding environment event is an
             # awaited wait on async futures (so both kinds were in flight when the scheduler decided to block)
-            tr = self.world.trace if self.world is not None else []
+            tr = [e for e in (self.world.trace if self.world is not None else []) if e[0] != "finish"]
             after_async_wait = bool(via == "conc" and len(tr) >= 2 and tr[-2][0] == "wait" and tr[-2][1] == "async" and tr[-2][3])
             data = {"blocked_on": running, "in_flight_outside_wait": out, "ready": ready, "via": via, "mode": mode,
                     "kinds_waited": kinds_in, "kinds_outside": kinds_out, "after_async_wait": after_async_wait}
@@ -367,12 +372,21 @@ def run_sched(cfg: Cfg, c: Ctx) -> Any:
                                 exec_set=exec_set, cp=cp, ref_args={}, ref_val={}, active={},
                                 shape_key=(tuple(tuple(alldeps[l]) for l in labels), tuple(res[l] for l in labels), sel, flavour, route))
     mon = Monitor(c, cfg, spec)
-    world = E.World(c, _WorldMonitor(mon))
+    real_schedule = REAL.get("schedule")
+    if real_schedule is not None:
+        from sx import realenv
+
+        world = realenv.RealWorld(c, _WorldMonitor(mon), real_schedule)
+        REAL["world"] = world
+    else:
+        world = E.World(c, _WorldMonitor(mon))
     mon.world = world
 
     # ---- node functions and the DAG, through the public API
     def make_fn(label: str) -> Any:
         def fn(*args: Any, **kwargs: Any) -> Any:
+            if real_schedule is not None:
+                return world.node_body(label, args, kwargs)
             return mon.node_entered(label, args, kwargs)
 
         fn.__name__ = fn.__qualname__ = label
@@ -454,11 +468,27 @@ def run_sched(cfg: Cfg, c: Ctx) -> Any:
     profiling = bool(cfg.profiling and c.choose(2, "profiling"))
     saved_profiling = twz_cfg.TAWAZI_PROFILE_ALL_NODES
     twz_cfg.TAWAZI_PROFILE_ALL_NODES = profiling
-    with E.Patched(world):
+    if real_schedule is not None:
+        from sx import realenv
+
+        patched: Any = realenv.RealPatched(world)
+    else:
+        patched = E.Patched(world)
+    with patched:
         E.watch(world)
         twz_cfg.RUN_DEBUG_NODES = dbg is not None
         try:
-            if flavour == "a":
+            if flavour == "a" and real_schedule is not None:
+                import asyncio as _aio
+
+                async def _main() -> Any:
+                    try:
+                        return await call(X)
+                    finally:
+                        await _aio.sleep(0.05)  # the caller's event loop keeps running after the call
+
+                got = _aio.run(_main())
+            elif flavour == "a":
                 got = world.drive(call(X))
             else:
                 got = call(X)
@@ -473,7 +503,9 @@ def run_sched(cfg: Cfg, c: Ctx) -> Any:
             outcome = ("raised", e)
         finally:
             try:
-                if flavour == "a":
+                if real_schedule is not None:
+                    pass
+                elif flavour == "a":
                     # an AsyncDAG runs in the caller's event loop, which keeps running after the call returned or
                     # raised: tasks created by ensure_future that were neither started nor cancelled start now
                     world.start_pending_tasks()
@@ -520,7 +552,63 @@ def run_sched(cfg: Cfg, c: Ctx) -> Any:
     c.coverage["transitions"] = c.coverage.get("transitions", 0) + world.events - 1
     if mon.max_inflight >= 2:
         c.cover("w_parallel")
-    return {"deps": alldeps, "res": res, "sel": sel, "flavour": flavour, "route": route, "trace": world.trace[:40], "outcome": outcome[0]}
+    if getattr(world, "control", None) is not None:
+        raise world.control  # a violation found by a monitor running on a worker thread
+    return {"deps": alldeps, "res": res, "sel": sel, "flavour": flavour, "route": route, "trace": list(world.trace), "outcome": outcome[0],
+            "choices": {k: list(v) for k, v in c.choices.items()}}
+
+
+def schedule_of(trace: List[Any]) -> List[Tuple[str, List[str]]]:
+    return [(ev[1], list(ev[2])) for ev in trace if ev and ev[0] == "finish"]
+
+
+def canonical(trace: List[Any]) -> List[Any]:
+    """Projection of an event trace that must be identical on the model and on the real pool."""
+    out = []
+    for ev in trace:
+        if ev[0] == "enter":
+            out.append(("enter", ev[1], ev[2]))
+        elif ev[0] == "wait":
+            out.append(("wait", ev[1], ev[2], tuple(sorted(x for x in ev[3] if x)), tuple(sorted(x for x in ev[4] if x))))
+        elif ev[0] == "finish":
+            out.append(("finish", ev[1], tuple(sorted(ev[2]))))
+    return [list(map(lambda v: list(v) if isinstance(v, tuple) else v, e)) for e in out]
+
+
+def replay_real(cfg: Cfg, record: Dict[str, Any], timeout_s: float = 40.0) -> Dict[str, Any]:
+    """Run the recorded path on the real ThreadPoolExecutor / event loop (see sx/realenv.py)."""
+    import functools
+    import threading
+
+    from sx import engine
+
+    trace = record.get("notes") or record.get("trace") or []
+    REAL["schedule"] = schedule_of([tuple(e) for e in trace])
+    REAL["world"] = None
+    box: Dict[str, Any] = {}
+
+    def run() -> None:
+        box["out"] = engine.replay(functools.partial(run_sched, cfg), record)
+
+    t = threading.Thread(target=run, daemon=True)
+    try:
+        t.start()
+        t.join(timeout_s)
+        w = REAL.get("world")
+        if t.is_alive():
+            if w is not None:
+                w.release_all()
+            t.join(5)
+            return {"status": "timeout", "trace": canonical(list(w.trace)) if w is not None else []}
+        out = box.get("out", {})
+        res = {"status": "reproduced" if out.get("reproduced") else ("diverged" if out.get("error") else "completed"),
+               "violation": (out.get("violation") or {}).get("msg"), "error": out.get("error"),
+               "trace": canonical(list(w.trace)) if w is not None else []}
+        return res
+    finally:
+        REAL["schedule"] = None
+        REAL["world"] = None
+
 
 
 def _zi(x: Any) -> Any:
